@@ -43,7 +43,7 @@ claim(
 claim(
     "C19",
     "other",
-    "Decides on a symbolic voxel array of symbolic shape: the straight-through estimator returns the discrete value with derivative exactly 1 w.r.t. the continuous input and 0 w.r.t. the discrete one; the integer branch is clip(round(x),0,M-1) for M in {2,3,5}; the isotropic inverse-permittivity branch returns per voxel argmin_m |x-1/eps_m| over the materials in library order and keeps the input shape (the shape domain never unifies a symbolic spatial size with the material count). Tie-breaking and float rounding are not decided.",
+    "Decides on a symbolic voxel array of symbolic shape: the straight-through estimator returns the discrete value with derivative exactly 1 w.r.t. the continuous input and 0 w.r.t. the discrete one; the integer branch is clip(round(x),0,M-1) for M in {2,3,5}; the isotropic inverse-permittivity branch returns per voxel argmin_m |x-1/eps_m| over the materials in library order and keeps the input shape (the shape domain never unifies a symbolic spatial size with the material count). A cast of the estimator's result to the dtype of the discrete argument (integer indices in the argmin branch) would cut the gradient and is kept visible as an opaque term, so the derivative rule sees it. Tie-breaking and float rounding are not decided.",
     TB + "; sa/ndarr.py broadcasting model; dual reading of stop_gradient (frozen atoms)",
     "abstract interpretation over a symbolic-shape array domain; symbolic differentiation of the normal form",
     "DESIGN.md §5 C19",
@@ -70,7 +70,7 @@ claim(
 claim(
     "C02",
     "other",
-    "Decides, as polynomial identities over the reals extended by symbolic atoms, that the composition backward(forward(state)) computed by the abstract interpreter from the current source returns the initial E, H and step counter, on every path the property names: isotropic/diagonal materials x {lossless, electric loss, magnetic loss, both}, scalar permeability, fully anisotropic lossless tensors, zero/periodic halos, Bloch phases on complex fields, PEC/PMC walls on every axis (initial state projected with the repo's own wall hooks), non-uniform metric scales, always-on and scheduled sources with opaque switch/time map. Sources are abstract in that composition (F + sign*J(time argument)); that every exported source class has this form (additive .at[].add, one inverse-controlled sign factor, magnitude and region independent of the field and of `inverse`, no inverse-controlled return) is decided per class by a def-use rule on update_E/update_H and their helpers. Lossy full tensors: compute_anisotropic_update_matrices / _reverse are interpreted with an exact 3x3 solve on symbolic tensors (diagonal; symmetric inverse tensor with isotropic conductivity; isotropic inverse tensor with full conductivity; thorough: general 9+9 entries) and must satisfy A_r A = 1 and A_r B = B_r per cell. Round-off, temporal-profile values and the off-diagonal spatial averaging of lossy full tensors are not decided.",
+    "Decides, as polynomial identities over the reals extended by symbolic atoms, that the composition backward(forward(state)) computed by the abstract interpreter from the current source returns the initial E, H and step counter, on every path the property names: isotropic/diagonal materials x {lossless, electric loss, magnetic loss, both}, scalar permeability, fully anisotropic lossless tensors, zero/periodic halos, Bloch phases on complex fields, PEC/PMC walls on every axis (initial state projected with the repo's own wall hooks), non-uniform metric scales, always-on and scheduled sources with opaque switch/time map. Sources are abstract in that composition (F + sign*J(time argument)); that every exported source class has this form (additive .at[].add, one inverse-controlled sign factor, magnitude and region independent of the field and of `inverse`, no inverse-controlled return) is decided per class by a def-use rule on update_E/update_H and their helpers. Lossy full tensors: compute_anisotropic_update_matrices / _reverse are interpreted with an exact 3x3 solve on symbolic tensors (diagonal; symmetric inverse tensor with isotropic conductivity; isotropic inverse tensor with full conductivity; thorough: general 9+9 entries) and must satisfy A_r A = 1 and A_r B = B_r per cell. Full permittivity / permeability tensors next to a Bloch face with a symbolic wave vector round-trip as well (the ghost layer read by the off-diagonal averages carries the phase in the forward and in the reverse update). Round-off, temporal-profile values and the off-diagonal spatial averaging of lossy full tensors are not decided.",
     TB + "; sa/ndarr.py stencil/indicator array model; abstract source and lax.cond-as-select models; sa/srcflow.py flow-insensitive def-use closure (control dependences included); non-uniform scenarios use one opaque metric atom per (axis, stencil)",
     "abstract interpretation of forward() then backward() to rational normal forms over a stencil domain, identity by cross-multiplication; syntax-tree def-use (taint) rule for the source classes",
     "DESIGN.md §5 C02",
@@ -295,7 +295,7 @@ claim(
 claim(
     "C04",
     "other",
-    "Narrow: gradient equality is a numerical statement; decided is the structure it rests on (chain rule over the executed steps). On reversible_fdtd's own custom-VJP closures, captured by interpreting the driver for symbolic T and 1..3 slices: the reverse loop starts at (T, final state), steps by -1 and exits at 0, so exactly the forward steps T-1..0 are linearised; each iteration reconstructs with backward(record_detectors=False, reset_fields=False) and calls jax.vjp on forward_single_args_wrapper with the primal forward's record_detectors / simulate_boundaries, record_boundaries=False, the run's config / key / conductivities and the reconstructed state as primals in the wrapper's parameter order; the pull-back is applied to the carried cotangent and its result carried; fdtd_bwd returns the inverse-permittivity / inverse-permeability cotangents in the primal's slots of those names and None elsewhere; fdtd_fwd runs the primal's segmented forward, checkpoint i is the field state at s_i and is restored exactly when the reverse counter equals s_i; forward_single_args_wrapper is the identity on slots; reverse updates evaluate every source at the forward call's time with inverse=True.",
+    "Narrow: gradient equality is a numerical statement; decided is the structure it rests on (chain rule over the executed steps). On reversible_fdtd's own custom-VJP closures, captured by interpreting the driver for symbolic T and 1..3 slices: the reverse loop starts at (T, final state), steps by -1 and exits at 0, so exactly the forward steps T-1..0 are linearised; each iteration reconstructs with backward(record_detectors=False, reset_fields=False) and calls jax.vjp on forward_single_args_wrapper with the primal forward's record_detectors / simulate_boundaries, record_boundaries=False, the run's config / key / conductivities and the reconstructed state as primals in the wrapper's parameter order; the pull-back is applied to the carried cotangent and its result carried; fdtd_bwd returns the inverse-permittivity / inverse-permeability cotangents in the primal's slots of those names and None elsewhere; fdtd_fwd runs the primal's segmented forward, checkpoint i is the field state at s_i and is restored exactly when the reverse counter equals s_i; forward_single_args_wrapper is the identity on slots; reverse updates evaluate every source at the forward call's time with inverse=True, and every public source class takes back with inverse=True exactly what it adds without (def-use rule R4.9, shared with C02 / C10).",
     TB + "; counting-loop summary; recording models of jax.custom_vjp / jax.vjp; chain rule; exact reconstruction is C02 / C03",
     "abstract interpretation of the custom-VJP closures with symbolic step counts (loop summary, recorded vjp operands, slot tables); sibling agreement of call-site tables on the syntax tree",
     "DESIGN.md §5 C04",
@@ -322,7 +322,7 @@ claim(
 claim(
     "C33",
     "other",
-    "Decides that one solver step commutes with unfolding on the repo's own code: for each axis as electric symmetry axis, and for two electric axes at once, with zero and with periodic transverse faces, the reduced state is a concrete small grid of free symbols (odd components sampled on the plane zero there), materials free symbols constant along the symmetry axis; `forward` on the reduced scene with the symmetry PEC wall, then unfold_fields, equals `forward` on the doubled scene started from unfold_fields of the same state, entry by entry as polynomials on every cell except the outermost layers of the mirrored half (2 per step; two steps at the thorough tier); tangential E and normal H still vanish on the plane afterwards; the co-located fields a detector touching the plane receives in the reduced scene equal the doubled scene's, and the repo's detector unfolding of the reduced record reproduces the doubled record on both sides. Holds for all field / material values on those grids; sources, full-tensor materials and round-off are not covered.",
+    "Decides that one solver step commutes with unfolding on the repo's own code: for each axis as electric symmetry axis, and for two electric axes at once, with zero and with periodic transverse faces, the reduced state is a concrete small grid of free symbols (odd components sampled on the plane zero there), materials free symbols constant along the symmetry axis; `forward` on the reduced scene with the symmetry PEC wall, then unfold_fields, equals `forward` on the doubled scene started from unfold_fields of the same state, entry by entry as polynomials on every cell except the outermost layers of the mirrored half (2 per step; two steps at the thorough tier); tangential E and normal H still vanish on the plane afterwards; the co-located fields a detector touching the plane receives in the reduced scene equal the doubled scene's, and the repo's detector unfolding of the reduced record reproduces the doubled record on both sides. Holds for all field / material values on those grids; sources, full-tensor materials and round-off are not covered. The walls the reduced run gets (one full plane per electric axis, also with two or three electric axes at once) and which detectors are mirror-extended afterwards (those clipped by a plane, not those merely beginning on it) are decided by C34's and C32's rules, evaluated here as R33.4.",
     TB + "; np.pad / roll / slicing models on concrete arrays; Yee staggering; parity tables (C32) and halo rule (C15) decided separately",
     "abstract interpretation of the solver step and of the unfolding on concrete small grids of free symbols; entry-wise polynomial identity of the two compositions",
     "DESIGN.md §5 C33",
@@ -340,7 +340,7 @@ claim(
 claim(
     "C36",
     "other",
-    "The 10^4-step trajectory bound of clause 2 is not decided as such; decided is its acceptance side: the coupled field / polarisation stability limit of the explicit ADE coupling is derived from the verified recurrence (z = -1 margin of the characteristic quartic of one Fourier mode: D Q(-1) = 4 (4 - w0^2 dt^2 - inv_eps a dt^2) - kappa (4 - w0^2 dt^2)), placement's screening function is shown to return exactly the pair whose order is the sign of Q(-1) at the largest curl eigenvalue ((4d/3) S^2 inv_eps inv_mu, courant_number^2 = S^2/3 read off the config), to warn iff beyond, and to be run by _init_arrays for every dispersive simulation with its own time step and Courant factor; exact Schur-Cohn reduction at 1536 rational points confirms root location on both sides of the limit. Also decided: clause 1 — update_E interpreted on symbolic fields with two poles, isotropic / per-axis coefficient layouts, isotropic / diagonal permittivity, with and without conductivity and dE/dt (c4) coupling: P' = c1 P + c2 P_prev + c3 E (+ c4 E'), P_prev' = P, and the new field satisfies the discrete Ampere law with polarisation current, (1+a) E' = (1-a) E + c inv_eps curl H - inv_eps sum_p (P'_p - P_p), identically in all symbols; with all coefficients and the stored polarisation zero the step equals the non-dispersive step of the same material (iso / diagonal with and without conductivity, full tensor lossless) and the polarisation stays zero. The static side of clause 2: both coefficient routines raise exactly when a coupled axis has omega_0 dt >= 2 (all guard paths enumerated), the Jury margins of z^2 - c1 z - c2 are then non-negative, and placement obtains its coefficient arrays only from those routines.",
+    "The 10^4-step trajectory bound of clause 2 is not decided as such; decided is its acceptance side: the coupled field / polarisation stability limit of the explicit ADE coupling is derived from the verified recurrence (z = -1 margin of the characteristic quartic of one Fourier mode: D Q(-1) = 4 (4 - w0^2 dt^2 - inv_eps a dt^2) - kappa (4 - w0^2 dt^2)), placement's screening function is shown to return exactly the pair whose order is the sign of Q(-1) at the largest curl eigenvalue ((4d/3) S^2 inv_eps inv_mu, courant_number^2 = S^2/3 read off the config), to warn iff beyond, and to be run by _init_arrays for every dispersive simulation with its own time step and Courant factor; exact Schur-Cohn reduction at 1536 rational points confirms root location on both sides of the limit. Also decided: clause 1 — update_E interpreted on symbolic fields with two poles, isotropic / per-axis coefficient layouts, isotropic / diagonal permittivity, with and without conductivity and dE/dt (c4) coupling: P' = c1 P + c2 P_prev + c3 E (+ c4 E'), P_prev' = P, and the new field satisfies the discrete Ampere law with polarisation current, (1+a) E' = (1-a) E + c inv_eps curl H - inv_eps sum_p (P'_p - P_p), identically in all symbols; with all coefficients and the stored polarisation zero the step equals the non-dispersive step of the same material (iso / diagonal with and without conductivity, full tensor lossless) and the polarisation stays zero. The static side of clause 2: both coefficient routines raise exactly when a coupled axis has omega_0 dt >= 2 (all guard paths enumerated), the Jury margins of z^2 - c1 z - c2 are then non-negative, and placement obtains its coefficient arrays only from those routines. On a concrete 3x2x2 grid with a 3x3 coupling per pole (oriented poles, full-tensor kernel) cells whose coefficients are all zero keep zero polarisation whatever their neighbours carry, and in the medium the field-independent part of the new polarisation is c1 P + c2 P_prev (R36.7).",
     TB + "; Levi-Civita oracle of C01; discrete Ampere law with polarisation current as the oracle; identity linalg.solve for the lossless full tensor",
     "abstract interpretation over a stencil domain; residual polynomial identity against the discrete Ampere law; path enumeration of the acceptance guard; who-may-call table; symbolic extraction of the stability screening and polynomial identity with the z = -1 margin of the mode's characteristic quartic; exact Schur-Cohn root counting on the extracted recurrence at rational points",
     "DESIGN.md §5 C36",
@@ -367,7 +367,7 @@ claim(
 claim(
     "C11",
     "other",
-    "Narrow: equality of two runs up to round-off is not decided. Decided is the structure that makes it true: one step is F' = A F + s with a real matrix and a real source term and no code path depends on the storage type, so the real part is the real-valued run and a zero imaginary part stays zero. On the scenes of C10 (all material tiers, conductivities, non-uniform metric, CPML, PEC / PMC walls, zero-phase periodic faces, three switched sources) every output of `forward` — E, H, every CPML memory — is a degree-one polynomial of the state symbols whose coefficients contain neither the imaginary unit nor abs / conj / real / imag / angle of a state symbol (these are kept opaque on state symbols); plane-source increments are real for real and complex incident profiles; the Bloch halo correction with a zero vector is the identity; no function of the time loop, of a boundary hook or of a detector update tests the complexness of a field (who-may-branch, with an inventory of the tests that do exist); _init_arrays allocates E, H and every CPML memory with complex64 / complex128 according to the real dtype when complex fields are requested or required, rejects use_complex_fields=False with a non-zero Bloch vector (12 combinations).",
+    "Narrow: equality of two runs up to round-off is not decided. Decided is the structure that makes it true: one step is F' = A F + s with a real matrix and a real source term and no code path depends on the storage type, so the real part is the real-valued run and a zero imaginary part stays zero. On the scenes of C10 (all material tiers, conductivities, non-uniform metric, CPML, PEC / PMC walls, zero-phase periodic faces, three switched sources) every output of `forward` — E, H, every CPML memory — is a degree-one polynomial of the state symbols whose coefficients contain neither the imaginary unit nor abs / conj / real / imag / angle of a state symbol (these are kept opaque on state symbols); plane-source increments are real for real and complex incident profiles; the Bloch halo correction with a zero vector is the identity; no function of the time loop, of a boundary hook or of a detector update tests the complexness of a field (who-may-branch, with an inventory of the tests that do exist); _init_arrays allocates E, H and every CPML memory with complex64 / complex128 according to the real dtype when complex fields are requested or required, rejects use_complex_fields=False with a non-zero Bloch vector (12 combinations). The hard plane source writes the real part on its E and H branch alike; the loss-carrying complex effective permittivity is requested only by the mode set-up, whose profile is made real unless the quadrature injection applies (no complex profile together with a filtered temporal profile, over all combinations of present / absent conductivity and dispersion arrays).",
     TB + "; a real-coefficient polynomial acts separately on real and imaginary parts; abstract source model of C10; prefix slicing of _init_arrays",
     "abstract interpretation over a stencil domain with non-holomorphic operations kept opaque; degree / coefficient-field analysis; who-may-branch rule on the syntax tree; decision table of the allocation prefix",
     "DESIGN.md §6 (moved from not-applicable)",
